@@ -268,6 +268,28 @@ func rangedAndClosedFields(fd *ast.FuncDecl) map[string]bool {
 			}
 		}
 		field := strings.TrimPrefix(x, rv+".")
+		// EVERY element is closed: nothing in the loop body can leave the loop early (return, break, goto, panic)
+		early := false
+		ast.Inspect(rs.Body, func(m ast.Node) bool {
+			switch v := m.(type) {
+			case *ast.FuncLit:
+				return false
+			case *ast.ReturnStmt:
+				early = true
+			case *ast.BranchStmt:
+				if v.Tok == token.BREAK || v.Tok == token.GOTO {
+					early = true
+				}
+			case *ast.CallExpr:
+				if exprString(v.Fun) == "panic" {
+					early = true
+				}
+			}
+			return true
+		})
+		if early {
+			return true
+		}
 		for _, v := range []ast.Expr{rs.Key, rs.Value} {
 			if v == nil {
 				continue
@@ -519,7 +541,31 @@ func extractResources(p *pkgs, f *facts) {
 			}
 		}
 		sort.Strings(both)
-		b["brokerCloseClosesListeners"] = len(both) > 0
+		// … and that holds for EVERY listener Accept hands out (the multiplexed path and the socket path alike): each
+		// `return L, nil` returns b.trackListener(…) itself or a variable last assigned from it
+		allTracked, nRet := true, 0
+		tracked := map[string]bool{}
+		ast.Inspect(acc.Body, func(n ast.Node) bool {
+			switch v := n.(type) {
+			case *ast.FuncLit:
+				return false
+			case *ast.AssignStmt:
+				if len(v.Lhs) >= 1 && len(v.Rhs) == 1 {
+					tracked[exprString(v.Lhs[0])] = strings.HasPrefix(exprString(v.Rhs[0]), recvVar(acc)+".trackListener(")
+				}
+			case *ast.ReturnStmt:
+				if len(v.Results) == 2 && exprString(v.Results[1]) == "nil" {
+					nRet++
+					r := exprString(v.Results[0])
+					if !strings.HasPrefix(r, recvVar(acc)+".trackListener(") && !tracked[r] {
+						allTracked = false
+					}
+				}
+			}
+			return true
+		})
+		note["acceptReturnsTracked"] = fmt.Sprintf("%v (%d returns)", allTracked, nRet)
+		b["brokerCloseClosesListeners"] = len(both) > 0 && allTracked && nRet >= 1
 		note["brokerListenerFields"] = both
 	}
 	if as := p.fn("GRPCBroker", "AcceptAndServe"); as == nil {
